@@ -68,6 +68,9 @@ class Prop(PropBase):
             data = (g.standard_normal((case["L"],) + shape) + 1j * g.standard_normal((case["L"],) + shape))
         else:
             data = g.standard_normal((case["L"],) + shape)
+            if case["cls"] in ("Signal", "RadioSignal") and case["seed"] % 4 == 0:
+                # classes without a dtype requirement also hold integer samples (raw counts); interpolated values are not integers
+                data = np.round(data * 20).astype([np.int16, np.int64, np.int8, np.uint8][(case["seed"] // 4) % 4])
         return sigs.make(pb, case["cls"], case["L"], rate, case["t0"], nchan=2, data=data)
 
     def _targ(self, case, z):
